@@ -483,7 +483,11 @@ func initDesignateNotaryRoleAsLeaderTick(ctx context.Context, prm enableNotaryPr
 				make([]byte, extraLen)...)
 			buf := tx.Scripts[1].InvocationScript[initialLen:]
 
-			for _, sig := range mCommitteeIndexToSignature {
+			for i := 1; i < len(prm.committee); i++ {
+				sig, ok := mCommitteeIndexToSignature[i]
+				if !ok {
+					continue
+				}
 				buf[0] = byte(opcode.PUSHDATA1)
 				buf[1] = byte(len(sig))
 				buf = buf[2:]
